@@ -29,30 +29,55 @@ def emit_c12(emit, find, src, join_literals, Missing):
     emit("Definition c12_kIsSampled : Z := %d%%Z.   (* %s *)" % (vals["kIsSampled"], F))
     emit("Definition c12_kIsRandom : Z := %d%%Z.   (* %s *)" % (vals["kIsRandom"], F))
     emit("Definition c12_kAllW3CTraceContext1Flags : Z := %d%%Z.   (* %s *)" % (v, F))
-    # which mask Tracer::StartSpan applies (the '#if 1' branch)
+    # which mask Tracer::StartSpan applies to the flags (code under '#if 0' is ignored)
     T = "sdk/src/trace/tracer.cc"
-    m = find(T, r"#if 1\b(?:(?!#endif).)*?flags\s*&=\s*opentelemetry::trace::TraceFlags::(\w+)\s*;", "active 'flags &=' mask in Tracer::StartSpan")
-    if m.group(1) != "kAllW3CTraceContext1Flags":
-        raise Missing("Tracer::StartSpan masking with kAllW3CTraceContext1Flags (found %s) in %s" % (m.group(1), T))
+    live = re.sub(r"(?ms)^#if 0\b.*?^#endif", "", src(T))
+    masks = re.findall(r"flags\s*&=\s*[\w:]*TraceFlags::(kAll\w+)\s*;", live)
+    if masks != ["kAllW3CTraceContext1Flags"]:
+        raise Missing("exactly one live 'flags &= TraceFlags::kAllW3CTraceContext1Flags' in Tracer::StartSpan (found %r) in %s" % (masks, T))
 
     for coq, rel, cls in (("c12_desc_always_on", "sdk/include/opentelemetry/sdk/trace/samplers/always_on.h", "AlwaysOnSampler"),
                           ("c12_desc_always_off", "sdk/include/opentelemetry/sdk/trace/samplers/always_off.h", "AlwaysOffSampler")):
         m = find(rel, r"GetDescription\(\)\s*const\s*noexcept\s*override\s*\{\s*return\s*(\"(?:[^\"\\]|\\.)*\")\s*;", cls + "::GetDescription literal")
         emit("Definition %s : list N := %s.   (* %s *)" % (coq, nlist(join_literals(m.group(1))), rel))
+    LIT = r'"(?:[^"\\]|\\.)*"'
     P = "sdk/src/trace/samplers/parent.cc"
-    m = find(P, r"description_\(\s*(\"(?:[^\"\\]|\\.)*\")\s*\+\s*std::string\{delegate_sampler->GetDescription\(\)\}\s*\+\s*(\"(?:[^\"\\]|\\.)*\")\s*\)",
-             "ParentBasedSampler description_ initialiser")
-    emit("Definition c12_desc_parent_prefix : list N := %s.   (* %s *)" % (nlist(join_literals(m.group(1))), P))
-    emit("Definition c12_desc_parent_suffix : list N := %s.   (* %s *)" % (nlist(join_literals(m.group(2))), P))
+    # the description expressions: <literal> + <delegate description | to_string(ratio)> + <literal>, however it is spelled
+    m = find(P, r"description_\s*[\(\{=]((?:%s|[^;\"])*?GetDescription\(\)(?:%s|[^;\"])*?)(?:\n\{|;)" % (LIT, LIT), "ParentBasedSampler description_ initialiser")
+    lits = re.findall(LIT, m.group(1))
+    if len(lits) != 2 or m.group(1).find(lits[0]) > m.group(1).find("GetDescription"):
+        raise Missing("ParentBasedSampler description as literal + delegate description + literal in " + P)
+    emit("Definition c12_desc_parent_prefix : list N := %s.   (* %s *)" % (nlist(join_literals(lits[0])), P))
+    emit("Definition c12_desc_parent_suffix : list N := %s.   (* %s *)" % (nlist(join_literals(lits[1])), P))
     R = "sdk/src/trace/samplers/trace_id_ratio.cc"
-    m = find(R, r"description_\s*=\s*(\"(?:[^\"\\]|\\.)*\")\s*\+\s*std::to_string\(ratio\)\s*\+\s*(\"(?:[^\"\\]|\\.)*\")\s*;", "TraceIdRatioBasedSampler description_")
-    emit("Definition c12_desc_ratio_prefix : list N := %s.   (* %s *)" % (nlist(join_literals(m.group(1))), R))
-    emit("Definition c12_desc_ratio_suffix : list N := %s.   (* %s *)" % (nlist(join_literals(m.group(2))), R))
-    # the factor of CalculateThreshold:  const double product = UINT32_MAX * ratio;
-    m = find(R, r"const\s+double\s+product\s*=\s*(\w+)\s*\*\s*ratio\s*;", "factor of 'product' in CalculateThreshold")
-    factors = {"UINT32_MAX": 2 ** 32 - 1, "UINT64_MAX": 2 ** 64 - 1, "UINT16_MAX": 2 ** 16 - 1, "INT32_MAX": 2 ** 31 - 1}
-    if m.group(1) not in factors:
-        raise Missing("known integer macro as factor of 'product' (found %s) in %s" % (m.group(1), R))
-    emit("Definition c12_threshold_factor : Z := %d%%Z.   (* %s: %s *)" % (factors[m.group(1)], R, m.group(1)))
-    m = find(R, r"ldexp\(\s*modf\(product,\s*&hi_bits\)\s*,\s*(\d+)\s*\)", "ldexp exponent in CalculateThreshold")
-    emit("Definition c12_threshold_shift : Z := %d%%Z.   (* %s *)" % (int(m.group(1)), R))
+    m = find(R, r"description_\s*[\(\{=]((?:%s|[^;\"])*?to_string\((?:%s|[^;\"])*?)(?:\n\{|;)" % (LIT, LIT), "TraceIdRatioBasedSampler description_")
+    lits = re.findall(LIT, m.group(1))
+    if len(lits) != 2 or m.group(1).find(lits[0]) > m.group(1).find("to_string"):
+        raise Missing("TraceIdRatioBasedSampler description as literal + to_string + literal in " + R)
+    emit("Definition c12_desc_ratio_prefix : list N := %s.   (* %s *)" % (nlist(join_literals(lits[0])), R))
+    emit("Definition c12_desc_ratio_suffix : list N := %s.   (* %s *)" % (nlist(join_literals(lits[1])), R))
+    # the factor and the shift of CalculateThreshold:  product = UINT32_MAX * ratio;  ldexp(modf(...), 32)
+    # (tolerant of renamed locals and of an explicit cast / literal for the factor; the numeric values are what is pinned)
+    body = find(R, r"uint64_t\s+CalculateThreshold\s*\(\s*double\s+(\w+)\s*\)[^{]*\{(.*?)\n\}", "body of CalculateThreshold")
+    arg, text = body.group(1), body.group(2)
+    text = re.sub(r"//[^\n]*", "", text)
+    m = re.search(r"=\s*([^;=]*?)\s*\*\s*%s\s*;" % arg, text) or re.search(r"=\s*%s\s*\*\s*([^;=]*?)\s*;" % arg, text)
+    if not m:
+        raise Missing("the product '<factor> * %s' in CalculateThreshold in %s" % (arg, R))
+    f = m.group(1).strip()
+    f = re.sub(r"^static_cast\s*<\s*double\s*>\s*\((.*)\)$", r"\1", f)
+    f = re.sub(r"^\(\s*double\s*\)\s*", "", f).strip()
+    factors = {"UINT32_MAX": 2 ** 32 - 1, "UINT64_MAX": 2 ** 64 - 1, "UINT16_MAX": 2 ** 16 - 1, "INT32_MAX": 2 ** 31 - 1, "INT64_MAX": 2 ** 63 - 1}
+    if f in factors:
+        v = factors[f]
+    elif re.fullmatch(r"(\d+)(?:\.0*)?(?:[uU]?[lL]{0,2}|[lL]{0,2}[uU]?)", f):
+        v = int(re.match(r"\d+", f).group(0))
+    elif re.fullmatch(r"0[xX][0-9a-fA-F]+(?:[uU]?[lL]{0,2})", f):
+        v = int(re.match(r"0[xX][0-9a-fA-F]+", f).group(0), 16)
+    else:
+        raise Missing("a recognisable integer factor of the product in CalculateThreshold (found %r) in %s" % (f, R))
+    emit("Definition c12_threshold_factor : Z := %d%%Z.   (* %s: %s *)" % (v, R, f))
+    m = re.search(r"ldexp\s*\((.*),\s*(\d+)\s*\)", text)
+    if not m:
+        raise Missing("ldexp(<fraction>, <n>) in CalculateThreshold in %s" % R)
+    emit("Definition c12_threshold_shift : Z := %d%%Z.   (* %s *)" % (int(m.group(2)), R))
